@@ -90,25 +90,29 @@ def u32At (b : Bytes) (off : Nat) : Option UInt32 := getU32le ((b.drop off).take
 
 def idOpt (v : UInt32) : Option UInt32 := if v = 0 then none else some v
 
-/-- slot `j` of a 452-byte gear-set record -/
-def decSlot (rec : Bytes) (j : Nat) : Option (Option Slot) := do
-  let o := 56 + 28 * j
-  let raw ← u32At rec o
-  let gl ← u32At rec (o + 4)
-  let u1 ← u32At rec (o + 8)
-  let u2 ← u32At rec (o + 12)
-  let u3 ← u32At rec (o + 16)
-  let u4 ← u32At rec (o + 20)
-  let u5 ← u32At rec (o + 24)
+/-- `n` consecutive fixed-size records -/
+def chunks : Nat → Nat → Bytes → List Bytes
+  | 0, _, _ => []
+  | n + 1, size, b => b.take size :: chunks n size (b.drop size)
+
+/-- a 28-byte slot record -/
+def decSlot (rec : Bytes) : Option (Option Slot) := do
+  let raw ← u32At rec 0
+  let gl ← u32At rec 4
+  let u1 ← u32At rec 8
+  let u2 ← u32At rec 12
+  let u3 ← u32At rec 16
+  let u4 ← u32At rec 20
+  let u5 ← u32At rec 24
   let id := raw &&& ~~~marker
   pure (if id = 0 then none else some ⟨id, idOpt gl, u1, u2, u3, u4, u5⟩)
 
+/-- a 452-byte gear-set record -/
 def decSet (rec : Bytes) : Option (Option GearSet) := do
-  if rec.length ≠ 452 then none
   let index ← rec[0]?
   let name := ((rec.drop 1).take 47).takeWhile (· ≠ 0)
   let unk ← getU64le ((rec.drop 48).take 8)
-  let slots ← (List.range 14).mapM (decSlot rec)
+  let slots ← (chunks 14 28 (rec.drop 56)).mapM decSlot
   let fw ← u32At rec 448
   pure (if name = [] then none else some ⟨index, name, unk, slots, idOpt fw⟩)
 
@@ -119,7 +123,7 @@ def decode (file : Bytes) : Option Table := do
   let unk1 ← body[0]?
   let current ← body[1]?
   let unk3 ← getU16le ((body.drop 2).take 2)
-  let sets ← (List.range 100).mapM fun i => decSet ((body.drop (4 + 452 * i)).take 452)
+  let sets ← (chunks 100 452 (body.drop 4)).mapM decSet
   pure ⟨unk1, current, unk3, sets⟩
 
 /-! ### well-formedness -/
